@@ -22,7 +22,11 @@ open PtLazy
 def cfg : Config := PtGen.lazyConfig
 
 /-- the current source satisfies the isolation condition -/
-theorem safe_generated : SafeIso tables3 cfg = true := by decide +kernel
+theorem safe_generated3 : SafeIso3 tables3 cfg = true := by decide +kernel
+
+theorem safe_generated2 : SafeIso2 tables3 cfg = true := (safeIso3_at safe_generated3).1
+
+theorem safe_generated : SafeIso tables3 cfg = true := (safeIso2_at safe_generated2).1
 
 /-- **public_unchanged**: whatever happens on private tables – inits before or after the first
     public touch, assignments, in-place mutation of their per-atom data – and in whatever order
@@ -62,6 +66,21 @@ theorem private_fresh_equals_public (c : Config) (hsafe : SafeIso tables3 c = tr
         · simp
         · cases h'')
 
+/-- the same in state form: after *any* history, a private table t on which the attribute's group
+    has been initialised at some point (`inited`) and that carries no user values serves the public
+    values – whatever happened on the public table or on the other private table before or after -/
+theorem private_initialised_equals_public (c : Config) (hsafe : SafeIso2 tables3 c = true) (h : List Event)
+    (hok : runOK tables3 c c.init h) (t : Nat) (ht : t ∈ privTables)
+    (hclean : TableClean t (run c c.init h).log)
+    (chain : List Node) (hch : ChainOK chain) (p : Nat)
+    (hin : ∀ gi g cs, c.groupOf p = some gi → c.groups[gi]? = some g →
+      (run c c.init h).gs[gi]? = some cs → inited g cs t = true) :
+    (step c (run c c.init h) (.read t chain p)).2 = canon c (.read 0 chain p) := by
+  obtain ⟨h0, h5⟩ := safeIso2_at hsafe
+  obtain ⟨h1, _, _, h4⟩ := safeIso_at h0
+  exact private_inited_canon h1 h5 (ginv_run h1 h _ (ginv_init h1) hok (fun _ _ _ => h4)) ht hclean
+    chain hch p hin
+
 /-- **objects_disjoint**: the per-atom objects of two tables are different objects – a fresh
     in-place mutation mark made through table t is never seen through any other table (public or
     private), whatever is read there -/
@@ -73,6 +92,31 @@ theorem objects_disjoint (c : Config) (hsafe : SafeCfg tables3 c = true) (hsh : 
     n ∉ (step c (step c (run c c.init h) (.mutate t chain p n)).1 (.read t' chain' p')).2.marks :=
   mark_not_seen_elsewhere hsafe hsh (ginv_run hsafe h _ (ginv_init hsafe) hok (fun _ _ _ => hsh)) t chain p n hev hfresh
     t' ht' chain' p'
+
+/-- **private tables are isolated from each other (and the public one) under assignment**: after
+    `x.p = v` on an atom of table t, any other table serves exactly what it served before -/
+theorem assignment_isolated (c : Config) (hsafe : SafeIso3 tables3 c = true) (h : List Event)
+    (hok : runOK tables3 c c.init h) (t : Nat) (chain : List Node) (p v : Nat)
+    (hev : evOK tables3 c (run c c.init h) (.assign t chain p v))
+    (t' : Nat) (ht' : t' ∈ tables3) (hne : t' ≠ t) (chain' : List Node) (hch : ChainOK chain') (p' : Nat) :
+    (step c (step c (run c c.init h) (.assign t chain p v)).1 (.read t' chain' p')).2
+      = (step c (run c c.init h) (.read t' chain' p')).2 := by
+  obtain ⟨h2, hf, htr⟩ := safeIso3_at hsafe
+  obtain ⟨h1, _, _, h4⟩ := safeIso_at (safeIso2_at h2).1
+  exact assign_isolated h1 hf htr (ginv_run h1 h _ (ginv_init h1) hok (fun _ _ _ => h4)) t chain p v hev
+    ht' hne chain' hch p'
+
+/-- … and under in-place mutation (of anything but a class-level default object) -/
+theorem mutation_isolated (c : Config) (hsafe : SafeIso3 tables3 c = true) (h : List Event)
+    (hok : runOK tables3 c c.init h) (t : Nat) (chain : List Node) (p n : Nat)
+    (hev : evOK tables3 c (run c c.init h) (.mutate t chain p n))
+    (t' : Nat) (ht' : t' ∈ tables3) (hne : t' ≠ t) (chain' : List Node) (hch : ChainOK chain') (p' : Nat) :
+    (step c (step c (run c c.init h) (.mutate t chain p n)).1 (.read t' chain' p')).2
+      = (step c (run c c.init h) (.read t' chain' p')).2 := by
+  obtain ⟨h2, hf, htr⟩ := safeIso3_at hsafe
+  obtain ⟨h1, _, _, h4⟩ := safeIso_at (safeIso2_at h2).1
+  exact mutate_isolated h1 h4 hf htr (ginv_run h1 h _ (ginv_init h1) hok (fun _ _ _ => h4)) t chain p n hev
+    ht' hne chain' hch p'
 
 /-- assignments are local as well: the log never holds a user value of the public table -/
 theorem no_public_user_values (c : Config) (hsafe : SafeCfg tables3 c = true) (hsh : NoSharedCfg c)
